@@ -216,6 +216,35 @@ theorem partHeaderHazard_wf (m : UMesh) (hw : WellFormed m = true) (np : Nat) (h
     simp only [decide_eq_true_eq]
     rcases hx with rfl | rfl | rfl | rfl | rfl | rfl | rfl <;> omega
 
+theorem encodeRaw_length (fl : Flavor) (m : UMesh) (hw : WellFormed m = true) :
+    (encodeRaw fl m).length = 7 * fl.ibytes + m.nodes.length * 24 +
+      (4 * m.tri.length + 5 * m.qua.length + 4 * m.tet.length + 5 * m.pyr.length + 6 * m.pri.length +
+        8 * m.hex.length) * fl.ibytes := by
+  obtain ⟨hn, hk⟩ := (wf_iff m).1 hw
+  have l2 := secConn_length fl .tri m.tri (hk .tri).2
+  have l3 := secConn_length fl .qua m.qua (hk .qua).2
+  have l6 := secConn_length fl .tet m.tet (hk .tet).2
+  have l7 := secConn_length fl .pyr m.pyr (hk .pyr).2
+  have l8 := secConn_length fl .pri m.pri (hk .pri).2
+  have l9 := secConn_length fl .hex m.hex (hk .hex).2
+  rw [nodePer_tri] at l2; rw [nodePer_qua] at l3; rw [nodePer_tet] at l6; rw [nodePer_pyr] at l7
+  rw [nodePer_pri] at l8; rw [nodePer_hex] at l9
+  simp only [encodeRaw, sectionsRaw, List.flatten_cons, List.flatten_nil, List.length_append, List.length_nil,
+    secHeader_length, secNodes_length, secTags_length, l2, l3, l6, l7, l8, l9]
+  ring
+
+/-- the count test of 10247dc passes on every laid-out file -/
+theorem counts_fit_raw (fl : Flavor) (m : UMesh) (hw : WellFormed m = true) :
+    UgridOffsets.counts_fit ((encodeRaw fl m).length : Int) (UgridOffsets.ibyte fl.fat) ((hdrOf m).getD 0 0)
+      ((hdrOf m).getD 1 0) ((hdrOf m).getD 2 0) ((hdrOf m).getD 3 0) ((hdrOf m).getD 4 0) ((hdrOf m).getD 5 0)
+      ((hdrOf m).getD 6 0) := by
+  rw [encodeRaw_length fl m hw, ibyte_eq]
+  simp only [hdrOf, List.map_cons, List.map_nil, List.getD_cons_zero, List.getD_cons_succ]
+  unfold UgridOffsets.counts_fit
+  have tdiv : ∀ (a b : Int), 0 ≤ a → Int.tdiv a b = a / b := fun a b h => Int.tdiv_eq_ediv_of_nonneg h
+  rcases ibytes_cases fl with h | h <;> rw [h] <;> push_cast <;>
+    (repeat rw [tdiv _ _ (by positivity)]) <;> refine ⟨⟨⟨⟨⟨⟨⟨⟨⟨⟨⟨⟨⟨?_, ?_⟩, ?_⟩, ?_⟩, ?_⟩, ?_⟩, ?_⟩, ?_⟩, ?_⟩, ?_⟩, ?_⟩, ?_⟩, ?_⟩, ?_⟩ <;> omega
+
 /-- **the parallel reader on what a writer lays out**, for every flavour, rank count ≥ 1, chunk size ≥ 1 -/
 theorem partRead_encodeRaw (cfg : Cfg) (hcap : cfg.allocCap = 2 ^ 30) (fl : Flavor) (m : UMesh) (hw : WellFormed m = true)
     (np : Nat) (hnp : 1 ≤ np) (hnp2 : np < 2 ^ 31) (chunk : Nat) (hc1 : 1 ≤ chunk) (hc2 : 72 * chunk ≤ 2 ^ 30) :
@@ -233,6 +262,9 @@ theorem partRead_encodeRaw (cfg : Cfg) (hcap : cfg.allocCap = 2 ^ 30) (fl : Flav
   rw [← hraw] at hh
   rw [hh]
   simp only [hdrOf_getD0, Int.toNat_natCast]
+  have hfit := counts_fit_raw fl m hw
+  simp only [hdrOf_getD0] at hfit
+  rw [if_neg (fun hc => hc.2.2 hfit)]
   have hsmall : partHeaderHazard np (hdrOf m) = false := partHeaderHazard_wf m hw np hnp2
   rw [hsmall]
   simp only [Bool.false_eq_true, if_false]
